@@ -325,8 +325,15 @@ def malformed_values(rng):
 def run(ctx):
     parse_units, parse_unitvalue, Units, UnitValue, UnitsSystem, UnitsDimensions = impl()
     rng = ctx.rng
-    ctx.notes.append("quantity round trip is stated under the contract float(str(x)) = x of the trusted primitives; "
-                     "rejection theorems other than embedded-blank are stated on the preprocessed text (after the u->µ chain and strip)")
+    ctx.notes.append("quantity round trip (show_parse_value) is stated under the contract float(str(x)) = x of the trusted "
+                     "primitives; the harness checks that contract bitwise on every generated double")
+    ctx.notes.append("grammar_semantics_partial: reading, dimension, a/b <-> a.b-1 and permutation-invariance of the dimension are "
+                     "proved; the SI-scale product formula and 'consistent => accepted' are NOT proved in Lean — they are checked "
+                     "exactly (rational arithmetic) by the oracle on every 1-factor string, every symbol pair x both separators "
+                     "and random 3-factor strings")
+    ctx.notes.append("rejection theorems for separators / exponent placement / foreign characters / two units are stated on the "
+                     "preprocessed text (after the u->µ chain, which only rewrites the letter u, and strip); embedded-blank and "
+                     "blank-inside-quantity-units are stated on the raw text")
 
     # ============================================================ 1. the grammar: denotation of valid text
     cases = []   # (factors, uspell)
@@ -511,7 +518,7 @@ def run(ctx):
     res = ctx.model.run(ops)
     for (text, val, fs, utxt), r in zip(meta, res):
         got = run_parse_value(text)
-        case = {"kind": "parse_unitvalue", "text": text}
+        case = {"kind": "parse_unitvalue", "text": text, "value": val, "factors": [list(f) for f in fs]}
         ctx.case(("pv", text), nontrivial=bool(utxt))
         ctx.count("quantity_free_form")
         spec = denote(fs)
@@ -669,8 +676,11 @@ def replay(ctx, rec):
         ok = all("ok" in g and bits(g["ok"][0]) == bits(x) and tuple(g["ok"][2]) == tuple(case["dim"]) for g in got)
     elif kind == "parse_unitvalue":
         got = run_parse_value(case["text"])
-        out.update(impl=got, expected=rec.get("expected"))
-        ok = "ok" in got and rec.get("expected") is None
+        spec = denote([(f[0], f[1], f[2]) for f in case.get("factors", [])])
+        want = float(case["value"]) if case.get("value") is not None else 0.0
+        out.update(impl=got, expected={"value": want, "dim": spec[1], "si": rstr(spec[2])})
+        ok = "ok" in got and bits(got["ok"][0]) == bits(want) and tuple(got["ok"][2]) == spec[1] and \
+            si_factor(got["ok"][1], got["ok"][2]) == spec[2]
     elif kind in ("malformed_units", "malformed_value"):
         t = case["text"]
         if kind == "malformed_units":
